@@ -729,7 +729,7 @@ def fam_select(tier, base):
 
 
 prop("C21", "select", "every enumerated node filter; observed = the node names the wrapped resource manager is asked about under that filter (the nodes of the locked callback); non-trivial = filters", _A_CL[:1] + ["real (non-mock) nodes have no engine: they are written directly to store and plugin; their heartbeat is a node status with a long TTL"])
-prop("C20", "select", "lock sequences of node-filtered operations over the enumerated filters (include lists in any order across two pods) + every operation of the cluster family (create, remove, dissociate, realloc, replace, set-node, remove-node, remove-pod, node-resource, remap) with its nested helpers; the locks held on the calling path travel in the context returned by Lock; non-trivial = lock acquisitions judged", _A_CL[:1])
+prop("C20", "select", "lock sequences of node-filtered operations over the enumerated filters (include lists in any order across two pods) + every operation of the cluster family (create, remove, dissociate, realloc, replace, set-node, remove-node, remove-pod, node-resource, remap) with its nested helpers; the locks held on the calling path = those that travel in the context returned by Lock plus those the calling goroutine itself acquired and still holds; also under worker-pool pressure (cluster_pool); non-trivial = lock acquisitions judged", _A_CL[:1])
 ALSO["C20"] = ["cluster"]
 
 
